@@ -18,7 +18,9 @@
      vtype   = VoteMessage.Type         (a byte; 0 prevote, 1 precommit; 0 for proposals)
      nid     = voteBase.NID() / proposal.NID   (uint32, 0 = unspecified)
      hash    = signedBase.hash()        (SHA3-256 of the signed content)
-     cost    = Coster.Cost()            (only used by the log's store)                     *)
+     cost    = Coster.Cost()            (only used by the log's store)
+     unsigned_ext = the unsigned attachments (VoteMessage.NTSVoteBases / NTSDProofParts);
+                    read by no decision below                                              *)
 From Goloop Require Import lib.Bytes.
 Open Scope N_scope.
 
@@ -39,7 +41,9 @@ Record msg := mkMsg {
   vtype  : N;
   nid    : N;
   hash   : bytes;
-  cost   : Z
+  cost   : Z;
+  unsigned_ext : bytes   (* what travels with the message but is NOT covered by hash():
+                            NTSVoteBases and NTSDProofParts of a precommit (a digest of them) *)
 }.
 
 Definition VoteTypePrevote : N := 0.
@@ -311,6 +315,11 @@ Record dsctx := mkCtx {
 (* dsValidators.AddressOf(signer) != nil *)
 Definition ctx_has (c : dsctx) (s : bytes) : bool := existsb (bytes_eqb s) (ctx_validators c).
 
+(* the same message with other unsigned attachments (and, since proof parts count
+   in Cost(), possibly another cost) *)
+Definition with_unsigned (e : bytes) (c : Z) (m : msg) : msg :=
+  mkMsg (signer m) (height m) (round m) (mkind m) (vtype m) (nid m) (hash m) c e.
+
 (* contract.DoubleSignReport {Type, Data, Context}; the type string is "vote",
    "proposal" or anything else (None) *)
 Record report := mkReport {
@@ -320,7 +329,7 @@ Record report := mkReport {
 }.
 
 Definition set_kind (k : kind) (m : msg) : msg :=
-  mkMsg (signer m) (height m) (round m) k (vtype m) (nid m) (hash m) (cost m).
+  mkMsg (signer m) (height m) (round m) k (vtype m) (nid m) (hash m) (cost m) (unsigned_ext m).
 
 (* DSContextHistory.Get : last entry with Height <= height, nil when there is none or
    the height is below the first entry *)
